@@ -1,3 +1,4 @@
+\* the transcription of /repo on scenario families that are not replayed step by step (futures)
 SPECIFICATION Spec
 CONSTANTS Threads <- T  Items <- W  Joins <- J  Scenarios <- Scn  FirstCloserOnly = TRUE
 INVARIANTS JoinOnlyAfterAllDone JoinOncePerStart CountExact AdmittedIffBeforeClose TerminalJoined NoTouchAfterDestruction
